@@ -28,7 +28,7 @@ def specs():
     A = Grid.from_positions([1.0, 2.0, 4.0], [0.0, 0.5])
     B = Grid.from_positions([-3.0, 5.0], [2.0, 3.0])
     S = Grid.from_positions([0.0, 8.0], [1.0])
-    s1 = ArchSpec(layout=Layout({"A": A, "B": B}, {"A"}, {"A", "B"}, {"A"}, special_grid={"S": S}),
+    s1 = ArchSpec(layout=Layout({"A": A, "B": B}, {"A"}, {"A", "B"}, {"A"}, special_grid={"S": S, "B": B.shift(1.0, 1.0)}),
                   float_constants={"f0": 1.5, "fh": 0.0, "f3": -2.0, "n2": 2.5},
                   int_constants={"n0": 3, "n1": 0, "n2": 1, "fh": 7})
     return [s0, s1]
